@@ -4,6 +4,7 @@
    and it is 0 for the empty list.
    Statements only; proofs are in Proofs/BddProofs.v. *)
 From Coq Require Import List NArith Arith Bool Permutation.
+From V Require Proofs.ExprsTie2.   (* expressions of cube.rs / ecube.rs / bdd.rs / canonization.rs, regenerated from the Rust source, equal the model's *)
 From V Require Import Base.Res Model.Kernels Model.Bdd Model.Api Spec.Bfun Spec.BddSpec Proofs.BddProofs.
 Import ListNotations.
 Open Scope N_scope.
